@@ -106,6 +106,28 @@ func Oxm(info *wire.OxmInfo, masked bool, rot int, varLen int) *wire.N {
 	return n
 }
 
+// OxmExperimenter builds an ONF experimenter-class match field (class 0xffff, experimenter id
+// 0x4f4e4600 in front of the value): tcp_flags (42, 2 bytes) or actset_output (43, 4 bytes) - the
+// form in which OpenFlow 1.3 switches carry these two fields.
+func OxmExperimenter(field uint64, masked bool, rot int) *wire.N {
+	w := 2
+	if field == 43 {
+		w = 4
+	}
+	n := wire.New("oxm").Set("Class", 0xffff).Set("Field", field).Set("HasMask", 0).Set("ExperimenterID", wire.ONFVendor)
+	v := Pat(w, rot)
+	n.SetB("Value", v)
+	if masked {
+		n.Set("HasMask", 1)
+		m := Pat(w, rot+1)
+		for i := range m {
+			m[i] |= v[i]
+		}
+		n.SetB("Mask", m)
+	}
+	return n
+}
+
 func OxmByName(name string, masked bool, rot int) *wire.N {
 	return Oxm(wire.OxmByName[name], masked, rot, 4)
 }
